@@ -2233,6 +2233,217 @@ def case_observe_3d(cuqi, rng, q, gkind, tkind):
                 cell="td/observe-2dspace/%s/%s" % (gkind, tkind), kind="DECISION", impl_fail=fail, signature="TimeDependentLinearPDE.observe" if fail else "")
 
 
+# ---------------- round 5 (deepen3): the interpolation routines inside the model, solver conventions, 3 space axes ----------------
+SS_OBS_VARIANTS = ["quadratic", "general", "nodes-mixed", "unsorted-sol-grid", "unsorted-obs", "three-nodes", "all-nodes-permuted",
+                   "too-few-nodes", "out-of-range", "duplicate-node", "equal-grids", "empty-obs"]
+
+
+def ss_observe_inputs(rng, variant, om0):
+    n = 3 if variant == "three-nodes" else rng.randint(4, 6)
+    gs = [v / 8.0 for v in sorted(rng.sample(range(0, 41), n))]            # dyadic nodes, sorted
+    coef = None
+    if variant in ("quadratic", "three-nodes", "unsorted-sol-grid") and rng.random() < 0.7 or variant == "quadratic":
+        coef = [rng.randint(-8, 8) / 2.0, rng.randint(-8, 8) / 2.0, rng.randint(-4, 4) / 2.0]
+    lo, hi = gs[0], gs[-1]
+    m = rng.randint(1, 5)
+    go = sorted(lo + (hi - lo) * rng.randint(0, 64) / 64.0 for _ in range(m))
+    if variant in ("nodes-mixed", "unsorted-obs", "unsorted-sol-grid"):
+        go = sorted(set(go[: max(1, m // 2)] + rng.sample(gs, rng.randint(1, 2))))
+    if variant == "unsorted-obs":
+        rng.shuffle(go)
+        if len(go) > 1 and go == sorted(go):
+            go.reverse()
+    if variant == "all-nodes-permuted":
+        go = list(gs)
+        while go == gs:
+            rng.shuffle(go)
+    if variant == "unsorted-sol-grid":
+        while gs == sorted(gs):
+            rng.shuffle(gs)
+    if variant == "too-few-nodes":
+        gs = gs[: rng.randint(1, 2)]
+        go = [gs[0]] if len(gs) == 1 else [gs[0], (gs[0] + gs[1]) / 2]
+        go = [v + 0.0625 for v in go] if len(gs) == 1 else go
+    if variant == "out-of-range":
+        go[rng.randrange(len(go))] = rng.choice([hi + 0.125, lo - 0.125, hi + 2.0 ** -40 * max(1.0, abs(hi))])
+    if variant == "duplicate-node":
+        j = rng.randrange(1, len(gs))
+        gs[j] = gs[j - 1]
+    if variant == "equal-grids":
+        go = list(gs)
+    if variant == "empty-obs":
+        go = []
+    if coef is not None:
+        sol = [coef[0] + coef[1] * x + coef[2] * x * x for x in gs]          # exact in binary (dyadic data)
+    else:
+        sol = [rng.randint(-20, 20) / 4.0 for _ in gs]
+    om = fix_omap(rng, gen_omap(rng, om0, len(go)), len(go))
+    return gs, go, sol, coef, om
+
+
+def case_ss_observe(cuqi, rng, variant, om0, inputs=None):
+    """SteadyStateLinearPDE.observe alone on a solution the caller hands in: the model interpolates by its own exact quadratic
+    spline (Model/C18_Spline.v).  Independent oracles: the exact polynomial (quadratic data), the node values (coinciding nodes),
+    and the harness's own Cox-de Boor B-spline code (general data)."""
+    gs, go, sol, coef, om = inputs or ss_observe_inputs(rng, variant, om0)
+    n = len(gs)
+    rec = Recorder()
+    with Patches(rec):
+        pde = cuqi.pde.SteadyStateLinearPDE(lambda p: (np.eye(n), p), grid_sol=np.array(gs), grid_obs=np.array(go),
+                                            observation_map=pymap(om))
+        U = np.array(sol, dtype=float)
+        keep = U.copy()
+        o = outcome(lambda: np.asarray(pde.observe(U), dtype=float))
+    fail = None
+    sig = "SteadyStateLinearPDE.observe"
+    same = (len(gs) == len(go) and all(a == b for a, b in zip(gs, go)))
+    legal = same or (len(set(gs)) == len(gs) >= 3 and all(min(gs) <= x <= max(gs) for x in go))
+    if o[0] == "ok":
+        pm = pymap(om)
+        scale = max([abs(v) for v in sol] + [0.0])
+        E = None
+        if same:
+            E = np.array(sol, dtype=float)
+        elif not legal:
+            fail = "observe() returned a value although interp1d must refuse (fewer than 3 nodes / repeated node / point outside the grid)"
+        elif coef is not None:
+            E = np.array([float(frac(coef[0]) + frac(coef[1]) * frac(x) + frac(coef[2]) * frac(x) * frac(x)) for x in go])
+        else:
+            order = sorted(range(n), key=lambda i: gs[i])
+            srt = sorted(go)
+            Es = spline_interp([gs[i] for i in order], np.array([[sol[i]] for i in order]), 2, srt)[:, 0] if go else np.zeros(0)
+            E = np.array([Es[srt.index(x)] for x in go])
+        if E is not None:
+            for i, x in enumerate(go):                                 # exactly at coinciding nodes (before the map)
+                a = idx_of(x, gs)
+                if a is not None and not same:
+                    E[i] = sol[a]
+            try:
+                Em = np.asarray(pm(E) if pm else E, dtype=float)
+                if not arr_close(o[1], Em, 1e-10 if coef is not None or same else 1e-8,
+                                 {"square": scale * scale, "scale": abs(om[1]) * scale if om[0] == "scale" else 0, "mat": n * 2 * scale}.get(om[0], scale)):
+                    fail = "observe() on grid_sol=%s solution=%s at grid_obs=%s: got %s, expected %s (%s)" % (
+                        gs, sol, go, np.asarray(o[1]).ravel()[:6].tolist(), Em.ravel()[:6].tolist(),
+                        "the quadratic itself" if coef is not None else "restriction" if same else "interpolating quadratic spline, node values at coinciding nodes")
+            except Exception:
+                pass
+    elif legal:
+        # a legal request may only be refused by the observation map itself (u[0] of an empty vector ...)
+        pm = pymap(om)
+        probe = outcome(lambda: pm(np.zeros(len(go))) if pm else 0)
+        if probe[0] == "ok":
+            fail = "observe() raised %s on a legal request (grid_sol=%s, grid_obs=%s)" % (o[1], gs, go)
+    if not np.array_equal(U, keep):
+        fail = "observe() altered the solution array it was given"
+    ot = "(Ok (%s, %s))" % (cbool(len(rec.i1) > 0), carr(o[1])) if o[0] == "ok" else "(Er %s)" % ecode(o[1])
+    expr = "check_ss_observe %s %s %s %s %s %s && %s && forallb i1_model_ok %s" % (
+        cgrid(gs), cgrid(go), comap(om), ctol("12"), qcv(sol), ot, cbool(interp_args_ok(rec)), enc_i1(rec))
+    return Case(expr=expr, meta={"kind": "ss_observe", "variant": variant, "inputs": [gs, go, sol, coef, om]},
+                cell="ss/observe-alone/%s/%s" % (variant, om[0]), kind="EXACT" if o[0] == "ok" else "DECISION",
+                impl_fail=fail, signature=sig if fail else "")
+
+
+RET_CONVENTIONS = ["plain", "tuple1", "tuple2", "tuple4", "namedtuple", "list", "empty-tuple"]
+
+
+def case_solver_convention(cuqi, rng, conv, steady):
+    """LinearPDE._solve_linear_system for every shape of answer a linalg_solve can give: a value, a tuple with 1, 2, 4 entries,
+    a tuple subclass, a list (NOT a tuple: taken as the solution itself) and the empty tuple (refused: IndexError).
+    The oracle is the documented rule itself: x, val1, val2, ... = linalg_solve(A, b) / x = linalg_solve(A, b)."""
+    import collections
+    n = rng.randint(2, 4)
+    A = np.eye(n) * 2.0
+    b = np.array([float(rng.randint(-8, 8)) for _ in range(n)])
+    x = b / 2.0
+    extras = {"plain": None, "tuple1": [], "tuple2": [rng.randint(0, 9)], "tuple4": [rng.randint(0, 9) for _ in range(3)],
+              "namedtuple": [rng.randint(0, 9)], "list": None, "empty-tuple": None}[conv]
+
+    def solver(A_, b_):
+        xx = np.linalg.solve(A_, b_)
+        if conv == "plain":
+            return xx
+        if conv == "namedtuple":
+            return collections.namedtuple("R", ["x", "it"])(xx, extras[0])
+        if conv == "list":
+            return [float(v) for v in xx]
+        if conv == "empty-tuple":
+            return ()
+        return (xx,) + tuple(extras)
+
+    def go():
+        if steady:
+            pde = cuqi.pde.SteadyStateLinearPDE(lambda p: (A, p), linalg_solve=solver)
+            pde.assemble(b)
+            sol, info = pde.solve()
+        else:
+            # one backward-Euler step with dt = 1, operator -I: (I + I) u1 = u0
+            pde = cuqi.pde.TimeDependentLinearPDE(lambda p, t: (-np.eye(n), np.zeros(n), p), np.array([0.0, 1.0]), method="backward_euler",
+                                                  linalg_solve=solver)
+            pde.assemble(b)
+            u, info = pde.solve()
+            sol = u[:, -1]
+        return (np.asarray(sol, dtype=float), None if info is None else [int(v) for v in info])
+    o = outcome(go)
+    fail = None
+    if conv == "empty-tuple":
+        if o[0] == "ok":
+            fail = "an empty tuple from linalg_solve was accepted: %s" % (o[1],)
+    elif o[0] != "ok":
+        fail = "linalg_solve returning %s was refused with %s" % (conv, o[1])
+    else:
+        if not np.array_equal(o[1][0], x):
+            fail = "solution %s is not the solver's vector %s" % (o[1][0].tolist(), x.tolist())
+        if o[1][1] != extras:
+            fail = "info %s is not the solver's extra return values %s" % (o[1][1], extras)
+    model = "None" if conv == "empty-tuple" else "(Some %s)" % csret(x, extras)
+    obs = "(Ok (%s, %s))" % (qcv(o[1][0]), cinfo(o[1][1])) if o[0] == "ok" else "(Er %s)" % ecode(o[1])
+    return Case(expr="check_solve_ret %s %s" % (model, obs), meta={"kind": "solver_convention", "conv": conv, "steady": steady},
+                cell="%s/solver-convention/%s" % ("ss" if steady else "td", conv), kind="DECISION",
+                impl_fail=fail, signature="LinearPDE._solve_linear_system" if fail else "")
+
+
+def case_observe_4d(cuqi, rng, q, gkind, tkind):
+    """three space axes (solution.ndim = 4), also space axes of length 1: the model sees every time level flattened to a matrix
+    (n1, n2*n3) -- the route never looks at the space shape --; the oracle is plain indexing of the stored array"""
+    n1, n2, n3, nt = rng.randint(1, 3), rng.randint(1, 2), rng.randint(1, 2), rng.randint(3, 5)
+    times = gen_times(rng, "nonuniform", nt)
+    tobs, _ = gen_tobs(rng, tkind, times)
+    g = [0.5 * i for i in range(n1)]
+    gs, go = {"none": (None, None), "equal": (g, list(g)), "differ": (g, [v + 0.25 for v in g])}[gkind]
+    sol = np.array(np.reshape([rng.randint(-9, 9) for _ in range(n1 * n2 * n3 * nt)], (n1, n2, n3, nt)), dtype=float)
+    pde = cuqi.pde.TimeDependentLinearPDE(lambda p, t: (np.eye(n1), np.zeros(n1), p), np.array(times), time_obs=np.array(tobs) if isinstance(tobs, list) else tobs,
+                                          grid_sol=aslist(gs), grid_obs=aslist(go))
+    keep = sol.copy()
+    o = outcome(lambda: np.asarray(pde.observe(sol), dtype=float))
+    tl = [times[-1]] if isinstance(tobs, str) and tobs.lower() == "final" else list(times) if isinstance(tobs, str) else list(tobs)
+    same = go is None or gs is None or gs == go
+    final = tl == [times[-1]]
+    ti = [idx_of(t, times) for t in tl]
+    fail = None
+    if o[0] == "ok":
+        a = o[1]
+        mats = [a.reshape(n1, n2 * n3)] if a.shape == (n1, n2, n3) else [a[..., j].reshape(n1, n2 * n3) for j in range(a.shape[-1])] if a.shape[:-1] == (n1, n2, n3) else None
+        enc = "(Ok %s)" % clist([qcm(m) for m in mats]) if mats is not None else "(Er EOther)"
+        if not same or any(i is None for i in ti):
+            fail = "observe() returned a value for a solution with three space axes where an interpolation would be needed"
+        else:
+            E = sol[..., ti]
+            if len(tl) == 1:
+                E = E[..., 0]          # only the time axis is dropped (space axes of length 1 stay)
+            if a.shape != E.shape or not np.array_equal(a, E):
+                fail = "observe() on a %s solution at times %s: got shape %s, the stored slices have shape %s" % (sol.shape, tl, a.shape, E.shape)
+    else:
+        enc = "(Er %s)" % ecode(o[1])
+        if same and all(i is not None for i in ti) and (final or not q["spline"]):
+            fail = "observe() raised %s for (equal grids, stored times %s) on a solution with three space axes" % (o[1], tl)
+    if not np.array_equal(sol, keep):
+        fail = "observe() altered the solution array it was given"
+    expr = "check_observe_2dspace %s %s %s %s %s %s %s" % (cquirks(q), cgrid(gs), cgrid(go), qcv(times), ctobs(tobs),
+                                                       clist([qcm(sol[..., k].reshape(n1, n2 * n3)) for k in range(nt)]), enc)
+    return Case(expr=expr, meta={"kind": "observe4d", "gkind": gkind, "tkind": tkind, "times": times, "tobs": tobs, "sol": sol.tolist()},
+                cell="td/observe-3dspace/%s/%s" % (gkind, tkind), kind="DECISION", impl_fail=fail, signature="TimeDependentLinearPDE.observe" if fail else "")
+
+
 # ---------------- grids bookkeeping ----------------
 def case_grids(cuqi, rng, n):
     def rg():
@@ -3147,6 +3358,24 @@ def run(ctx):
             for tkind in ["final", "arr_final", "arr_one_node", "all", "arr_nodes", "arr_offnodes", "arr_mixed"]:
                 cases.add("td/observe-2dspace/%s/%s" % (gkind, tkind), "observe3d", lambda: case_observe_3d(cuqi, rng, q, gkind, tkind))
 
+    # ---- 5f. deepen3: the interpolation routines inside the model; solver conventions; three space axes -------------------------------
+    som = ["none", "square", "scale", "first", "from", "mat"]
+    kk = 0
+    for _ in range(ctx.n(2, 12)):
+        for variant in SS_OBS_VARIANTS:
+            kk += 1
+            om0 = som[kk % len(som)]
+            cases.add("ss/observe-alone/%s" % variant, "ss_observe", lambda: case_ss_observe(cuqi, rng, variant, om0))
+    for conv in RET_CONVENTIONS:
+        for steady in (True, False):
+            cases.add("solver-convention/%s" % conv, "solver_convention", lambda: case_solver_convention(cuqi, rng, conv, steady))
+    for _ in range(reps):
+        for gkind in ["none", "equal", "differ"]:
+            for tkind in ["final", "arr_final", "arr_one_node", "all", "arr_nodes", "arr_unsorted", "arr_final_twice", "arr_offnodes", "arr_mixed", "arr_empty"]:
+                cases.add("td/observe-3dspace/%s/%s" % (gkind, tkind), "observe4d", lambda: case_observe_4d(cuqi, rng, q, gkind, tkind))
+        for tkind in ["arr_unsorted", "arr_final_twice", "arr_empty"]:
+            cases.add("td/observe-2dspace/equal/%s" % tkind, "observe3d", lambda: case_observe_3d(cuqi, rng, q, "equal", tkind))
+
     # ---- 6. grids bookkeeping, gradient dispatch, shipped test problems ---------------------------------------------------
     for _ in range(ctx.n(40, 400)):
         cases.add("grids/setters", "grids", lambda: case_grids(cuqi, rng, rng.randint(3, 5)))
@@ -3164,8 +3393,10 @@ def run(ctx):
                   extra={"tree_state": q},
                   assumptions=["real linear solvers (scipy.linalg.solve, user solvers) enter the model as the table of the calls they answered; "
                                "the law A x = b is checked on every entry to 1e-9 per component",
-                               "scipy.interpolate.interp1d(kind='quadratic') / RectBivariateSpline enter the model as the table of the call they answered; "
-                               "node-exactness is checked on every entry; the oracle compares with an independent B-spline interpolation to 1e-7",
+                               "scipy.interpolate.interp1d(kind='quadratic') / RectBivariateSpline are MODELLED (exact interpolating splines, truncated-power basis, "
+                               "Gauss-Jordan with checked inverse, Model/C18_Spline.v); the table of the calls scipy answered is compared with the in-model routines entry "
+                               "by entry (same exception class / values within 1e-9 of the largest solution entry) and node-exactness is checked on every entry; the oracle "
+                               "compares with an independent Cox-de Boor B-spline interpolation to 1e-7",
                                "floating rounding is not modelled: cases whose exact arithmetic stays dyadic with denominator <= 2^24 and magnitude < 2^20 are compared bit-for-bit, the others within 1e-9/1e-12 relative to 1+|value| (solution values are O(1)..O(100) by construction; grids and times are always compared exactly, never within a tolerance)"])
 
 
